@@ -33,7 +33,8 @@ def good_value(rng, p):
             return rng.choice(["[(1,2),(3,4)]", "[(1,)]", "[]"])
         if name == "kwargs_iter":
             return rng.choice(["[{'x':1},{'y':2}]", "[{}]", "[]"])
-        return rng.choice(["[1,2]", "[1,2,3]", "[]", "(4,5)"])
+        # a literal may contain any string — also one with a backslash that is no escape sequence
+        return rng.choice(["[1,2]", "[1,2,3]", "[]", "(4,5)", "[1,'\\d']"])
     # strings are passed through as they are: non-ASCII text and backslashes included
     return rng.choice(GROUPS + ["msg", "x1", "grüße", "a\\tb", "ж✓"])
 
